@@ -206,16 +206,23 @@ Qed.
 Theorem lock_discipline_holds : undisciplined = [].
 Proof. vm_compute. reflexivity. Qed.
 
-(* unfolded: in every function of the table, no execution of its automaton violates the discipline *)
+(* unfolded: in every function of the table, no execution of its automaton violates the discipline.
+   (Stated first for an arbitrary table, so that no step of the proof computes on the generated data.) *)
+Lemma all_ok_of_none_rejected (tab : list (string * list ld_edge)) :
+  map fst (filter (fun f => negb (fn_ok f)) tab) = [] -> forall f, In f tab -> fn_ok f = true.
+Proof.
+  induction tab as [|g tab IH]; intros H f Hf; [destruct Hf|].
+  cbn [filter] in H. destruct (fn_ok g) eqn:Eg; cbn [negb] in H.
+  - destruct Hf as [<-|Hf]; [exact Eg|exact (IH H f Hf)].
+  - cbn [map] in H. discriminate.
+Qed.
+
 Corollary no_execution_violates_the_discipline f a l b c :
   In f lock_automata -> ld_run (snd f) a c -> (In (a, l, b) (snd f) -> violates l c = false) /\ snd c <= 1.
 Proof.
-  intros Hf Hr. assert (Hok : fn_ok f = true).
-  { destruct (fn_ok f) eqn:E; [reflexivity|]. exfalso.
-    assert (Hin : In (fst f) undisciplined).
-    { unfold undisciplined. apply in_map. apply filter_In. split; [exact Hf|]. rewrite E. reflexivity. }
-    rewrite lock_discipline_holds in Hin. destruct Hin. }
-  split.
+  intros Hf Hr.
+  pose proof (all_ok_of_none_rejected lock_automata lock_discipline_holds f Hf) as Hok.
+  unfold fn_ok in Hok. split.
   - intros Hin. exact (table_ok_sound (snd f) (ld_solution (snd f)) Hok a l b c Hr Hin).
   - exact (table_ok_one_section_per_phase (snd f) (ld_solution (snd f)) Hok a c Hr).
 Qed.
